@@ -90,6 +90,13 @@ Definition observed_stored (o : list value) : option (list bytes) :=
   | _ => None
   end.
 
+Fixpoint list_bytes_eqb (a b : list bytes) : bool :=
+  match a, b with
+  | [], [] => true
+  | x :: a', y :: b' => bytes_eqb x y && list_bytes_eqb a' b'
+  | _, _ => false
+  end.
+
 Definition glue_recv (dir : Z) (hs : list value) (b key reqid : bytes) (tab : list value) (o : list value)
                      (extra : bool -> bool) : option verdict :=
   match honests_of hs, table_of tab, observed_accept o, observed_stored o with
@@ -130,7 +137,32 @@ Definition glue_C10 (k : string) (a o : list value) : option verdict :=
     | [VL hs; VB b; VB key; VB reqid; VL tab; VZ n; VZ k'] =>
         glue_recv 1 hs b key reqid tab o (fun acc => C10_session_ok acc n k')
     | _ => None end
-  else if is k "cl.ip" then
+  else if is k "ke.real" then
+    (* the real NTS-KE server with the real Fetcher: the client's exported keys, the cookies it got,
+       the server keys, AEAD answers; observed: algorithm, whether the exchange named the listener,
+       and what each cookie opened to (by the harness's own opener) *)
+    match a, o with
+    | [VB c2s; VB s2c; VL cookies; VL keys; VL tab], [VZ algo; VZ addrok; VL obs] =>
+        match getBs cookies, table_of tab with
+        | Some cookies, Some t =>
+            let getkey := fun id => match find (fun kv => match kv with VL [VZ i; VB _] => i =? id | _ => false end) keys with
+                                    | Some (VL [_; VB kb]) => Some kb
+                                    | _ => None end in
+            let openc := fun cb => match ec_decode cb with
+                                   | Ok ec => match getkey (ec_id ec) with
+                                              | Some mk => ec_decrypt (open_tab t) ec mk
+                                              | None => Err ENoKey end
+                                   | Err e => Err e | Panic => Panic | OutOfFuel => OutOfFuel end in
+            let exp := map (fun cb => match openc cb with
+                                      | Ok c => VL [VZ 0; VZ (sc_algo c); VB (sc_s2c c); VB (sc_c2s c)]
+                                      | _ => VL [VZ 1; VZ 0; VB []; VB []] end) cookies in
+            let obsl := map (fun v => match v with
+                                      | VL [VZ c; VZ al; VB x; VB y] => ((c =? 0), {| sc_algo := al; sc_s2c := x; sc_c2s := y |})
+                                      | _ => (false, {| sc_algo := 0; sc_s2c := []; sc_c2s := [] |}) end) obs in
+            Some (functional [VZ 15; VZ 1; VL exp] o (C10_realke_ok c2s s2c algo addrok obsl))
+        | _, _ => None end
+    | _, _ => None end
+  else if is k "cl.ip" || is k "cl.scion" then
     (* the real IP client with NTS: honest packets, the datagrams it was sent in order, its S2C key, the
        identifier of its request, AEAD answers, deadline; observed: the datagram its offset was computed
        from (-1: the call failed, -2: it hung), cookies of other datagrams than the genuine one in its store *)
@@ -140,17 +172,47 @@ Definition glue_C10 (k : string) (a o : list value) : option verdict :=
         | Some hs, Some ds, Some t =>
             let r := client_loop (open_tab t) (negb (dl =? 0)) key reqid ds 0 0 in
             let e := match r with Some i => Z.of_nat i | None => -1 end in
-            Some (functional [VZ e; VZ 0] o (C10_client_ok hs ds key reqid used && (leak =? 0)))
+            let known := forallb (fun b => match decode_packet b with
+                                           | Ok p => if key_ok key && (length (p_nonce p) =? 16)%nat && bytes_eqb reqid (p_uid p)
+                                                     then open_known t key (p_nonce p) (Some (firstn (p_pos p) b)) (p_ct p) else true
+                                           | _ => true end) ds in
+            Some (functional [vbool known; VZ e; VZ 0] (VZ 1 :: o) (C10_client_ok hs ds key reqid used && (leak =? 0)))
         | _, _, _ => None end
     | _, _ => None end
   else if is k "nts.encode" then
     match a with
-    | [VB hdr; VB uid; VL cs; VL phs; VB key; VB pt; VB rnd; VL tab] =>
-        match getBs cs, getBs phs, table_of tab with
-        | Some cs, Some phs, Some t =>
+    (* EncodePacket on the given parts, then the receiver on its output under the same key;
+       src: the input of NewRequestPacket / NewResponsePacket that made the parts (or nothing) *)
+    | [VB hdr; VB uid; VL cs; VL phs; VB key; VB pt; VB rnd; VL tab; VZ ptkind; VL src] =>
+        match getBs cs, getBs phs, table_of tab, o with
+        | Some cs, Some phs, Some t, [VZ ocode; VB oout; VZ oacc] =>
             let r := enc_packet (seal_tab t) hdr uid cs phs key pt rnd in
-            Some (functional [VZ (code_of r); VB (match r with Ok x => x | _ => [] end)] o true)
-        | _, _, _ => None end
+            let acc := match r with
+                       | Ok x => match server_accept (open_tab t) x key with Ok _ => 1 | _ => 0 end
+                       | _ => -1 end in
+            let known := match r with
+                         | Ok x => match decode_packet x with
+                                   | Ok p => if key_ok key && (length (p_nonce p) =? 16)%nat
+                                             then open_known t key (p_nonce p) (Some (firstn (p_pos p) x)) (p_ct p) else true
+                                   | _ => true end
+                         | _ => true end in
+            let srcok := match src with
+                         | [] => true
+                         | [VL pool] => match getBs pool with
+                                        | Some pool => match new_request pool with
+                                                       | Ok (c1, p1) => list_bytes_eqb c1 cs && list_bytes_eqb p1 phs
+                                                       | _ => false end
+                                        | None => false end
+                         | [VL cookies; VB u] => match getBs cookies with
+                                                 | Some cookies => match new_response cookies u with
+                                                                   | Ok x => bytes_eqb x pt && bytes_eqb u uid
+                                                                   | _ => false end
+                                                 | None => false end
+                         | _ => false end in
+            Some (functional [vbool known; vbool srcok; VZ (code_of r); VB (match r with Ok x => x | _ => [] end); VZ acc]
+                             (VZ 1 :: VZ 1 :: o)
+                             (C10_encode_ok hdr uid cs phs key pt rnd ptkind ocode oacc))
+        | _, _, _, _ => None end
     | _ => None end
   else if is k "nts.newresp" then
     match a with
@@ -175,8 +237,21 @@ Definition glue_C10 (k : string) (a o : list value) : option verdict :=
     | [VZ algo; VB s2c; VB c2s; VB key; VZ keyid; VB rnd; VL tab] =>
         match table_of tab with
         | Some t =>
-            let r := cookie_seal (seal_tab t) {| sc_algo := algo; sc_s2c := s2c; sc_c2s := c2s |} key keyid rnd in
-            Some (functional [VZ (code_of r); VB (match r with Ok x => x | _ => [] end)] o true)
+            (* EncryptWithNonce + Encode, then the cookie opened again under the key that sealed it *)
+            let c0 := {| sc_algo := algo; sc_s2c := s2c; sc_c2s := c2s |} in
+            let r := cookie_seal (seal_tab t) c0 key keyid rnd in
+            match r, o with
+            | Ok cb, [VZ scode; VB ocb; VZ oc; VZ oalgo; VB os2c; VB oc2s] =>
+                let ro := cookie_open (open_tab t) cb key in
+                let known := match ec_decode cb with
+                             | Ok ec => if key_ok key && (length (ec_nonce ec) =? 16)%nat
+                                        then open_known t key (ec_nonce ec) None (ec_ct ec) else true
+                             | _ => true end in
+                let res := if oc =? 0 then Some {| sc_algo := oalgo; sc_s2c := os2c; sc_c2s := oc2s |} else None in
+                Some (functional (vbool known :: VZ 0 :: VB cb :: sc_values ro) (VZ 1 :: o)
+                        (if scode =? 0 then C10_cookie_ok ocb key c0 ocb key res else true))
+            | _, _ => Some (functional [VZ (code_of r); VB []; VZ (-1); VZ 0; VB []; VB []] o true)
+            end
         | None => None end
     | _ => None end
   else if is k "ck.open" then
@@ -224,13 +299,22 @@ Definition glue_C10 (k : string) (a o : list value) : option verdict :=
     | _, _ => None end
   else if is k "ck.tlv" then
     (* EncryptedServerCookie.Decode alone, and re-encoding of what it decoded *)
-    match a with
-    | [VB cb] =>
-        let r := ec_decode cb in
-        Some (functional (match r with
-                          | Ok ec => [VZ 0; VZ (ec_id ec); VB (ec_nonce ec); VB (ec_ct ec); VB (ec_encode ec)]
-                          | _ => [VZ (code_of r); VZ 0; VB []; VB []; VB []] end) o true)
-    | _ => None end
+    match a, o with
+    | [VZ which; VB cb], [VZ ocode; _; _; _; _; VZ osame] =>
+        if which =? 0 then
+          let r := ec_decode cb in
+          Some (functional (match r with
+                            | Ok ec => [VZ 0; VZ (ec_id ec); VB (ec_nonce ec); VB (ec_ct ec); VB (ec_encode ec);
+                                        VZ (match ec_decode (ec_encode ec) with Ok _ => 1 | _ => 0 end)]
+                            | _ => [VZ (code_of r); VZ 0; VB []; VB []; VB []; VZ 0] end) o (C10_tlv_ok ocode osame))
+        else
+          (* ServerCookie.Decode: the decrypted cookie *)
+          let r := sc_decode cb in
+          Some (functional (match r with
+                            | Ok c => [VZ 0; VZ (sc_algo c); VB (sc_s2c c); VB (sc_c2s c); VB (sc_encode c);
+                                       VZ (match sc_decode (sc_encode c) with Ok _ => 1 | _ => 0 end)]
+                            | _ => [VZ (code_of r); VZ 0; VB []; VB []; VB []; VZ 0] end) o (C10_tlv_ok ocode osame))
+    | _, _ => None end
   else if is k "srv.ip" || is k "srv.scion" then
     (* the real IP / SCION listener: args honest packets, datagram (NTP/NTS payload), valid server
        keys [id key], AEAD answers; observed: replied (-1: the listener stopped answering), whether
@@ -242,10 +326,36 @@ Definition glue_C10 (k : string) (a o : list value) : option verdict :=
             let getkey := fun id => match find (fun kv => match kv with VL [VZ i; VB _] => i =? id | _ => false end) keys with
                                     | Some (VL [_; VB kb]) => Some kb
                                     | _ => None end in
+            let rb := negb (replied =? 0) in
+            if (length b <=? 48)%nat then
+              (* no NTS: a plain, valid 48-byte request is answered without NTS, anything shorter is not *)
+              let e := if (length b =? 48)%nat && ntp_req_ok (nthz b 0) then 1 else 0 in
+              Some (functional [VZ 1; VZ e; VZ 0; VZ 0] (VZ 1 :: o)
+                      (negb (replied <? 0) && (verified =? 0) && (cookies =? 0)))
+            else
             let r := server_nts (open_tab t) getkey b in
             let e := match r with Ok _ => 1 | _ => 0 end in
-            let rb := negb (replied =? 0) in
-            Some (functional [VZ e; VZ e; VZ e] o
+            (* every Open the model asks for must be in the table the harness computed *)
+            let known :=
+              match decode_packet b with
+              | Ok p =>
+                  match first_cookie p with
+                  | Ok cb =>
+                      match ec_decode cb with
+                      | Ok ec =>
+                          match getkey (ec_id ec) with
+                          | Some mk =>
+                              (if key_ok mk && (length (ec_nonce ec) =? 16)%nat
+                               then open_known t mk (ec_nonce ec) None (ec_ct ec) else true) &&
+                              match ec_decrypt (open_tab t) ec mk with
+                              | Ok sc => if key_ok (sc_c2s sc) && (length (p_nonce p) =? 16)%nat
+                                         then open_known t (sc_c2s sc) (p_nonce p) (Some (firstn (p_pos p) b)) (p_ct p) else true
+                              | _ => true end
+                          | None => true end
+                      | _ => true end
+                  | _ => true end
+              | _ => true end in
+            Some (functional [vbool known; VZ e; VZ e; VZ e] (VZ 1 :: o)
                     (negb (replied <? 0) && C10_listener_ok hs b rb (negb (verified =? 0)) &&
                      C10_reissue_ok rb (negb (cookies =? 0))))
         | _, _ => None end
